@@ -91,7 +91,7 @@ var Profiles = map[string]*Profile{
 		"crash": 2, "restart": 6, "step": 20, "comeback": 2}, func(p *Profile) { p.PJoiner = 50; p.PLease = 0; p.PFive = 30 }),
 	"read": mkProfile("read", map[string]int{"comeback": 4, "readindex": 14, "isolate": 4, "heal": 3, "tickcampaign": 4, "campaign": 3, "proposeconf": 4,
 		"crash": 3, "restart": 8, "dup": 4, "step": 20}, func(p *Profile) { p.PLease = 0; p.PSingle = 25 }),
-	"flow": mkProfile("flow", map[string]int{"comeback": 2, "propose": 25, "proposebatch": 6, "drop": 8, "unreachable": 4, "dup": 4, "step": 15},
+	"flow": mkProfile("flow", map[string]int{"comeback": 2, "stallelect": 4, "propose": 25, "proposebatch": 6, "drop": 8, "unreachable": 4, "dup": 4, "step": 15},
 		func(p *Profile) { p.PTinyLimits = 85; p.MaxPayload = 300 }),
 	"all": mkProfile("all", map[string]int{"proposeconf": 4, "compact": 3, "crash": 2, "restart": 6, "readindex": 3, "transfer": 2,
 		"dup": 4, "isolate": 2}, func(p *Profile) { p.AllowZeroApplyQuota = true }),
@@ -1214,6 +1214,10 @@ func (s *Sim) StallThroughElection(p *Profile, f *Node) {
 	d := s.D
 	s.begin("StallThroughElection(%d)", f.ID)
 	s.Stats.inc("macro.stallelect")
+	if d.Int(0, 2, "selfcandidate") == 0 && len(s.upNodes()) >= 2 {
+		s.stalledNodeTakesOver(p, f)
+		return
+	}
 	f.SlowAppend = true
 	if d.Int(0, 1, "lagfirst") == 1 {
 		if l := s.leaderNode(); l != nil && l.ID != f.ID {
